@@ -272,7 +272,14 @@ unsafe fn drop_cycle<T>(cycle: HashMap<Link<T>, usize>) {
         // cycle holds a strong reference to `this`. Mark all nodes in the cycle
         // as dead so when we deallocate them via the `value` pointer we don't
         // get a double-free.
-        for _ in 0..cycle_strong_refs.min((*rcbox).strong()) {
+        //
+        // The number of strong references to this node that are owned by the
+        // cycle is `refcount`, the count accumulated by the reachability trace
+        // over all adopters, not the number of adoptions this node itself has
+        // made (`cycle_strong_refs`); the two differ whenever a node's in and
+        // out degree differ.
+        let _ = cycle_strong_refs;
+        for _ in 0..refcount.min((*rcbox).strong()) {
             (*rcbox).dec_strong();
         }
     }
